@@ -12,6 +12,7 @@ import (
 	"strconv"
 	"strings"
 
+	"ariga.io/atlas/sql/migrate"
 	"ariga.io/atlas/sql/schema"
 	"ariga.io/atlas/sql/sqlite"
 
@@ -93,7 +94,7 @@ func min(a, b int) int {
 
 func runPlan(c *ctx) {
 	c.w.Rule = "a case is non-trivial when the real planner returns a non-empty plan; distinct by the plan skeleton"
-	n := 5000
+	n := 3000
 	if c.thorough {
 		n = 20000
 	}
@@ -310,6 +311,7 @@ func simpleDefaults(s Schema) bool {
 }
 
 type engineOpts struct {
+	updown     bool // after the up run, execute the reverse statements of a reversible plan (mode updown)
 	file, fk   bool
 	rows       []rowSpec
 	withModel  bool // write a model case (else oracle only)
@@ -342,7 +344,11 @@ func (c *ctx) engineCase(a, b Schema, desc string, o engineOpts) {
 	var obs []string
 	add := func(s string) { obs = append(obs, s) }
 	fromSpec := build("sqlite", a)
-	line := "E " + b01(o.fk) + " " + tokCase(fromSpec, a) + " " + strconv.Itoa(len(o.rows))
+	op := "E "
+	if o.updown {
+		op = "U "
+	}
+	line := op + b01(o.fk) + " " + tokCase(fromSpec, a) + " " + strconv.Itoa(len(o.rows))
 	for _, r := range o.rows {
 		line += " " + hx(r.table) + " " + strconv.Itoa(r.rowid) + " " + strconv.Itoa(len(r.cols))
 		for i := range r.cols {
@@ -429,6 +435,10 @@ func (c *ctx) engineCase(a, b Schema, desc string, o engineOpts) {
 			fmt.Fprintln(os.Stderr, "  PLAN ERR:", err)
 		}
 	}
+	var upPlan *migrate.Plan
+	if o.updown {
+		upPlan, _ = l.drv.PlanChanges(bg, "updown", cs)
+	}
 	aerr := l.drv.ApplyChanges(bg, cs)
 	applied := ""
 	switch e := aerr.(type) {
@@ -457,6 +467,46 @@ func (c *ctx) engineCase(a, b Schema, desc string, o engineOpts) {
 	add("FK1 " + strconv.Itoa(fkv))
 	cs2, derr2, _ := diffReal(after, build("sqlite", b))
 	add("D2 " + showSchemaChanges(cs2, derr2))
+	if o.updown {
+		// down: the reverse statements of the changes, last change first (what the formatters write into a down file)
+		switch {
+		case upPlan == nil || aerr != nil:
+			add("DN skipped")
+		case !upPlan.Reversible:
+			add("DN irreversible")
+		default:
+			k, derr := 0, error(nil)
+		down:
+			for i := len(upPlan.Changes) - 1; i >= 0; i-- {
+				rs, err := upPlan.Changes[i].ReverseStmts()
+				if err != nil {
+					derr = err
+					break
+				}
+				for _, r := range rs {
+					if err := l.exec(r); err != nil {
+						derr = err
+						break down
+					}
+					k++
+				}
+			}
+			if derr != nil {
+				if trace {
+					fmt.Fprintln(os.Stderr, "  DOWN ERR:", derr)
+				}
+				add("DN err@" + strconv.Itoa(k))
+			} else {
+				add("DN ok")
+			}
+			if back, err := l.inspect(); err != nil {
+				add("I2 err")
+			} else {
+				add("I2 " + tokObs(back))
+				add("R2 " + dumpRows(l, back))
+			}
+		}
+	}
 	// ---- the property, judged on the real observations
 	c.w.Count("engine.kind=" + strings.SplitN(strings.SplitN(desc, ":", 2)[0], "+", 2)[0])
 	if len(cs) > 0 {
@@ -481,13 +531,23 @@ func (c *ctx) engineCase(a, b Schema, desc string, o engineOpts) {
 		if perr != nil || len(p2.Changes) != 0 {
 			c.w.Violation(id, "second-plan", ic+fmt.Sprintf("second plan not empty [%s]", desc))
 		}
+		// independent of the differ: the state itself
+		if fs := freshState(b); fs != nil {
+			if df := firstDiff(stateProj(after), fs); df != "" {
+				c.w.Violation(id, "state-differs", ic+fmt.Sprintf("apply succeeded and the second diff is empty, but the inspected database differs from the desired schema created from scratch: %s ; first diff=%s [%s]", df, showSchemaChanges(cs, nil), desc))
+			}
+		}
+		// a plan that switched foreign-key enforcement off must switch it on again
+		if o.fk && fkv != 1 {
+			c.w.Violation(id, "fk-left-off", ic+fmt.Sprintf("foreign_keys was on before the apply and is off after it [%s]", desc))
+		}
 	}
 	finish()
 }
 
 func runEngine(c *ctx) {
 	c.w.Rule = "a case is non-trivial when the real differ reports a non-empty change list between the inspected current database and the desired schema; distinct by that list"
-	n := 2500
+	n := 1200
 	if c.thorough {
 		n = 6000
 	}
@@ -513,7 +573,7 @@ func runEngine(c *ctx) {
 
 func runOracle(c *ctx) {
 	c.w.Rule = "a case is non-trivial when the real differ reports a non-empty change list between the inspected current database and the desired schema; distinct by that list"
-	n := 3000
+	n := 1300
 	if c.thorough {
 		n = 40000
 	}
@@ -542,5 +602,47 @@ func runOracle(c *ctx) {
 			c.w.Count("known.witness=" + class)
 			c.engineCase(a, b, "known:"+class, engineOpts{file: i%2 == 0, fk: i%3 == 0, viaAtlas: class != "drop-inline-unique" && i%2 == 1})
 		}
+	}
+}
+
+// ------------------------------------------------------------------ updown stage (for C17: reverse statements on the real engine vs the model)
+
+func runUpDown(c *ctx) {
+	c.w.Rule = "a case is non-trivial when the real differ reports a non-empty change list; distinct by that list"
+	n := 500
+	if c.thorough {
+		n = 8000
+	}
+	for i := 0; i < n; i++ {
+		a, b, d := c.g.pair()
+		if len(a.Tables) > 0 && c.r.Chance(1, 2) { // reversible plans: additive edits only
+			b = a.clone()
+			var kinds []string
+			for k := 0; k < 1+c.r.Intn(3); k++ {
+				ti := c.r.Intn(len(b.Tables))
+				for try := 0; try < 6; try++ {
+					e := edits[c.r.Intn(len(edits))]
+					if (e.kind == "add-col-null" || e.kind == "add-index" || e.kind == "add-col-generated") && e.f(c.g, &b, &b.Tables[ti]) {
+						kinds = append(kinds, e.kind)
+						break
+					}
+				}
+			}
+			if c.r.Chance(1, 3) {
+				nm := c.g.pick(tblNames)
+				if b.table(nm) == nil && !nameUsed(&b, nm) {
+					b.Tables = append(b.Tables, c.g.table(&b, nm))
+					kinds = append(kinds, "add-table")
+				}
+			}
+			d = "additive:" + strings.Join(kinds, "+")
+		}
+		o := engineOpts{updown: true, file: c.r.Chance(1, 3), fk: c.r.Bool(), withModel: true, viaAtlas: c.r.Chance(1, 3)}
+		if c.r.Chance(1, 3) && simpleDefaults(b) && !strings.Contains(d, "mod-col-type") && d != "unrelated" {
+			for _, t := range a.Tables {
+				o.rows = append(o.rows, genRows(c.g, t)...)
+			}
+		}
+		c.engineCase(a, b, d, o)
 	}
 }
